@@ -14,7 +14,9 @@ RULE = ("seeded random class families (4-8 classes: roots, single/multiple inher
         "subclasses, functions returning a class, a non-class constant; 35 % of the class-typed parameters default to a class "
         "spec lazy_instance(Sub, ..) naming a concrete, mostly proper, subclass; 35 % of the families are laid out as a package "
         "whose last 1-3 classes live in submodules s1/s2 and whose __init__ re-exports some of them under their own name, "
-        "under the name of ANOTHER submodule class, or under a new name) x specs for a random declared type: explicit "
+        "under the name of ANOTHER submodule class, or under a new name; 30 % of the one-module families come with a second "
+        "module <mod>_alt defining a homonym (same name, parents, constructor) of 1-2 non-root classes, which makes their bare "
+        "name ambiguous below every declared type above them) x specs for a random declared type: explicit "
         "{class_path, init_args, dict_kwargs} (valid / wrong class / abstract / non-class / missing import / unknown or "
         "ill-typed init_args), short forms (name only, init_args without class_path, bare dict, dotted "
         "--x.k / --x.init_args.k / nested --x.p.k / --x.dict_kwargs.k; init_args-only / bare dicts / dotted keys for a "
@@ -22,13 +24,18 @@ RULE = ("seeded random class families (4-8 classes: roots, single/multiple inher
         "form) each run together with its explicit twin, "
         "class changes between argv items (top level and nested, a quarter of them with dict_kwargs on both sides), "
         "argument defaults (15 % of them invalid: an ill-typed or unknown init_arg, found while the defaults are completed), "
-        "8 % of the specs repeat a declared parameter in dict_kwargs (well- or ill-typed), parse_object channel; one case per "
+        "8 % of the specs repeat a declared parameter in dict_kwargs (well- or ill-typed), parse_object channel; 12 % of the "
+        "plain argv cases put the option into the parser of a sub-command (argv = fit + items, instantiate_classes recurses "
+        "into the sub-command), 1 case in 13 uses a class group add_class_arguments(Base, 'x') instead of an option typed Base "
+        "(dotted items only; the group is instantiated after its class-typed members), 30 % of the option defaults are given "
+        "as a STRING (class name or class path); one case per "
         "family is a fault history in one process (a parser with an invalid option default fails first, then a fresh parser "
-        "sees a class change); plus 150 hand-made cases in every run (dotted null two levels down, "
+        "sees a class change); plus 200 hand-made cases in every run (dotted null two levels down, "
         "functions with related/unrelated return type, same-named parameter of another type across a class change, "
         "dict_kwargs naming a parameter, abstract declared type, two-level nested construction, prefix-named options / "
         "parameters with merged config sources, a family that grows between two parses, Dict[str, C] / List[C] options in "
-        "several sources); per family 2 of the 12 cases are one option typed Dict[str, C] or List[C] given in 2-3 sources "
+        "several sources, a homonym in a second module (ambiguous / unambiguous positions), sub-command / class-group / "
+        "string-default variants); per family 2 of the 12 cases are one option typed Dict[str, C] or List[C] given in 2-3 sources "
         "(the option twice, a config source, --m.key=, --m+=, --m.param= for the last element; later sources use short forms "
         "for non-first elements, drop / add / reorder keys, change the list length), 2 are "
         "parsers with 2-3 class-typed options whose names may be string prefixes of each other (x/x_ema, x/x2, xa/x/xab) fed by "
@@ -47,13 +54,19 @@ TRUSTED = [
     "CPython class creation/import/call binding for the generated modules; inspect.signature",
 ]
 ASSUMPTIONS = [
-    "one generated module or package per family (a module may be defined in two stages; a package is loaded whole, all its "
+    "one generated module or package per family, plus optionally the module of homonyms (a module may be defined in two stages; a package is loaded whole, all its "
     "submodules imported by __init__; no path through a name that a submodule merely imported); class names unique; constructors take keyword-only explicit parameters, do not "
     "call super().__init__ and log (id, type name, kwargs); functions forward their keywords to the returned class",
     "string values are identifiers that YAML loads as str (no numeric-looking strings); null only for Optional[Class]",
-    "class names are unique within a family, also across its submodules (so an ambiguous bare name never arises; the "
-    "'Multiple subclasses with name' branch of resolve_class_path_by_name is modelled but not exercised); private MODULES "
+    "class names are unique within the family's own module / package; a homonym only exists in the second module <mod>_alt "
+    "(fam_shadows: same name, parents and constructor as the original), it is never named by a class path - it only makes "
+    "the bare name ambiguous ('Multiple subclasses with name', modelled by Model.ambiguous, exercised and covered by "
+    "C14_bare_name_accepted_only_if_unique); shadows are generated for one-module families only; private MODULES "
     "(a '._' path component that is not a class name) are not generated",
+    "a sub-command wrapper does not change the parse of the option (same model as the plain option); a class group "
+    "add_class_arguments(Base, 'x') fed by dotted items is modelled as the option typed Base with the implicit class_path "
+    "of Base (the group's Namespace is read as the spec of class Base); a default given as the string s is modelled as "
+    "the default spec {class_path: s}; all three tied per case, not proved",
     "null is only given where the parameter is Optional[Class]: a None for an int/str/Class parameter is stored unchecked in "
     "every channel (same root cause as the open finding C05 none-unchecked: _check_value_key returns None unchecked under "
     "lenient_check and validation skips None) - noted in notes/C14.md, owned by C05",
@@ -97,21 +110,34 @@ META = {
                   "class, init_args updated by dict_kwargs, nested objects passed); C14_accepted_builds_configured_object — an "
                   "accepted spec without abstract classes whose dict_kwargs go to **kwargs callables instantiates without "
                   "TypeError and yields that object; C14_short_forms_same_run — class name only, init_args without class_path, "
-                  "bare dict and one-level dotted items can be replaced by their explicit form without changing the run. "
+                  "bare dict and one-level dotted items can be replaced by their explicit form without changing the run; "
+                  "C14_bare_name_accepted_only_if_unique / C14_ambiguous_name_rejected — for ALL families, also with a homonym "
+                  "class in a second module, a bare class name (alone or as class_path of a dict) is accepted only if exactly "
+                  "one non-abstract public subclass of the declared type carries it and no homonym exists, otherwise the parse "
+                  "fails (nothing is picked silently); C14_accepted_is_subclass_and_valid_spec_defaults / "
+                  "C14_accepted_builds_configured_object_spec_defaults — the first and third theorem also for families whose "
+                  "class-typed parameters default to a class spec (lazy_instance), under fam_wf2. "
                   "C14_dotted_null_refuted exhibits the one finding (fixed in /repo 389f511: dotted sub-option with "
                   "null two levels down was rejected while the explicit form was accepted). The Gallina model is tied to the real "
-                  "parse_args/parse_object + instantiate_classes on generated class families written to real modules (1800 "
+                  "parse_args/parse_object + instantiate_classes on generated class families written to real modules (2000 "
                   "cases quick, 17k thorough); model agreement, spec agreement and the explicit-form twin are judged inside Coq.",
-    "level_note": "Partial: C14_accepted_is_subclass_and_valid and C14_accepted_builds_configured_object assume fam_wf, which "
-                  "excludes parameter defaults that are class specs (lazy_instance): those families are generated and judged "
-                  "(fam_wf_ext) but only tied per case; C14_instantiate_exact and the short-form theorems hold for them too. "
+    "level_note": "Partial: C14_accepted_is_subclass_and_valid and C14_accepted_builds_configured_object assume fam_wf (no "
+                  "parameter default is a class spec); their _spec_defaults versions assume fam_wf2 = the generated families "
+                  "(fam_wf_ext) + every spec default has no dict_kwargs and int/str init_args for int/str parameters of its class "
+                  "(true for every generated family) + no parameter name is str-typed in one callable and class-typed in another "
+                  "(names_typed: NOT true for every generated family; where it fails the families are judged per case only: in "
+                  "the model a string kept across a class change into a class-typed parameter is not re-adapted by the defaults "
+                  "pass, the real code re-adapts it - an unmodelled re-validation, see notes/C14.md); "
+                  "C14_instantiate_exact, the short-form and the bare-name theorems hold for all families. "
                   "short-form = explicit-form (S3) is a theorem only for the shallow forms and w.r.t. the class current in the model "
                   "state; dotted keys two or more levels deep, short forms inside nested values (also those relying on the "
                   "class of a parameter's default) and Spec.expand_steps itself are checked per case by running each case and "
                   "its explicit twin (computed by Spec.expand_steps, re-computed in Coq) through the implementation; that every "
                   "object is handed on once (no aliasing) and that a fully explicit valid spec is accepted (S4) are likewise "
-                  "only checked per case, as are the independence of several class-typed options under merged config sources and "
-                  "bare-name resolution in a family that grows between parses. dict_kwargs are treated as documented (not validated): a TypeError caused only by a "
+                  "only checked per case (S4 is demanded for every sequence of fully explicit valid specs, also across class "
+                  "changes and for every option of a multi-option parser), as are the independence of several class-typed options "
+                  "under merged config sources, bare-name resolution in a family that grows between parses, the sub-command "
+                  "wrapper, the class-group reading and string defaults. dict_kwargs are treated as documented (not validated): a TypeError caused only by a "
                   "dict_kwargs key the callable cannot take is allowed by the spec. Trusted: Coq kernel/VM; faithfulness of the "
                   "hand-written model outside the generated cases (the clone/update choreography between adapt_class_type, "
                   "ActionTypeHint.__call__ and merge_config is collapsed to its net effect); the harness; the model of "
@@ -119,7 +145,9 @@ META = {
                   "the product model of several options are correspondence-only; Union-of-class, protocols, "
                   "Callable[..., Class] and custom instantiators are outside the modelled space. No axioms.",
     "technique": "Rocq proof by induction on the model's recursion fuel over a structural validity predicate (two-pass "
-                 "finalize: defaults pass then validation pass) and by a log-extension invariant for instantiate; "
+                 "finalize: defaults pass then validation pass; for spec defaults with the invariant that every previous value of "
+                 "the defaults pass is itself well-typed for the parameter's class and free of dict_kwargs) and by a log-extension "
+                 "invariant for instantiate; case analysis of the name-resolution table for bare names; "
                  "vm_compute witnesses; randomized correspondence on generated class families judged in Coq",
 }
 
@@ -325,6 +353,12 @@ def gen_family(rng, idx):
         fam = {"mod": "jvfam%d" % idx, "classes": classes, "funcs": funcs, "consts": ["K0"], "subs": [], "exports": []}
         if rng.random() < 0.35:
             gen_layout(rng, fam)
+        elif rng.random() < 0.3:
+            # a second module <mod>_alt defines a homonym (same name, parents, constructor) of one or two non-root classes:
+            # their bare names are ambiguous below every declared type above them
+            cands = [k["name"] for k in classes if k["parents"]]
+            rng.shuffle(cands)
+            fam["shadows"] = sorted(cands[: rng.randint(1, 2)])
         fix_default_paths(fam)
         return fam
 
@@ -388,8 +422,8 @@ def gen_leaf(rng, ty, clean):
     return {"s": rng.choice(STRS)}
 
 
-def gen_tree(rng, fam, base, depth=0, clean=False):
-    cp = pick_class(rng, fam, base, clean)
+def gen_tree(rng, fam, base, depth=0, clean=False, cp=None):
+    cp = cp or pick_class(rng, fam, base, clean)
     ia = []
     for p in params_of_path(fam, cp):
         give = rng.random() < (0.9 if p["def"] is None else 0.4)
@@ -524,6 +558,8 @@ def resolve_name(fam, base, nm):
         return nm
     hits = [k for k in fam["classes"] if k["name"] == nm and is_sub(fam, nm, base) and not k["abstract"]
             and "._" not in path_of(fam, nm)]
+    if nm in (fam.get("shadows") or []) and nm != base:
+        return nm       # a second module defines a homonym: the bare name is ambiguous, it denotes no class
     return path_of(fam, nm) if len(hits) == 1 else nm
 
 
@@ -932,9 +968,20 @@ def _gen_case(rng, fam, base=None, kind=None):
     if True:
         base = base or rng.choice(names)
         kind = kind or rng.choice(["explicit", "explicit", "short", "short", "steps", "steps", "steps", "change", "change",
-                                   "change", "object", "default"])
+                                   "change", "object", "default", "group"])
         dflt = None
+        dflt_str = None
         channel = "argv"
+        if kind == "group":
+            # a class group add_class_arguments(Base, "x") instead of an option typed Base: needs a concrete class without **kw
+            k0 = cls_of(fam, base)
+            elig = [k["name"] for k in fam["classes"] if not k["abstract"] and not k["varkw"] and k["params"]]
+            if k0["abstract"] or k0["varkw"] or not k0["params"]:
+                with_cls = [n for n in elig if any(p["ty"][0] in ("cls", "opt") for p in cls_of(fam, n)["params"])]
+                if not elig:
+                    kind = "steps"
+                else:
+                    base = rng.choice(with_cls or elig)
         if kind == "explicit":
             steps = [{"raw": tree_raw(rng, gen_tree(rng, fam, base))}]
         elif kind == "short":
@@ -942,6 +989,13 @@ def _gen_case(rng, fam, base=None, kind=None):
         elif kind == "object":
             steps = [{"raw": tree_raw(rng, gen_tree(rng, fam, base), 0.5)}]
             channel = "object"
+        elif kind == "group":
+            t = gen_tree(rng, fam, base, clean=rng.random() < 0.8, cp=path_of(fam, base))
+            t["dk"] = []
+            steps = group_steps(steps_for(rng, t, [], True)[1:])
+            channel = "group"
+            if not steps:      # nothing given: an option would hold None, a group holds its defaults - not comparable
+                steps, channel = [{"raw": {"s": base}}], "argv"
         elif kind == "steps":
             steps = steps_for(rng, gen_tree(rng, fam, base, clean=rng.random() < 0.7), [], True)
             if rng.random() < 0.3:
@@ -976,6 +1030,12 @@ def _gen_case(rng, fam, base=None, kind=None):
             if rng.random() < 0.15:
                 dt = corrupt_tree(rng, dt)      # an invalid default: the parse fails while the defaults are completed
             dflt = tree_value(dt)
+            if rng.random() < 0.3:
+                # the default given as a STRING (class name or class path): add_argument(default="Sub")
+                nm = dt.get("bare")
+                s_ = nm if nm and rng.random() < 0.6 and resolve_name(fam, base, nm) != nm else dt["cp"]
+                dflt = {"spec": {"cp": s_, "ia": [], "dk": []}}
+                dflt_str = s_
             t2 = gen_tree(rng, fam, base, clean=rng.random() < 0.7)
             r = rng.random()
             if r < 0.3:
@@ -985,13 +1045,34 @@ def _gen_case(rng, fam, base=None, kind=None):
             else:
                 steps = steps_for(rng, t2, [], True)
         if not steps and dflt is None:
-            steps = [{"raw": {"s": base}}]
+            steps = [{"raw": {"s": base}}] if channel != "group" else []
+        if channel == "argv" and kind != "default" and rng.random() < 0.12:
+            channel = "sub"        # the option belongs to the parser of a sub-command
         twin = None
-        if channel == "argv":
+        if channel in ("argv", "sub"):
             tw = expand_steps(fam, base, dflt, steps)
             if tw != steps:
                 twin = tw
-        return {"fam": fam, "base": base, "dflt": dflt, "steps": steps, "channel": channel, "twin": twin}
+        c = {"fam": fam, "base": base, "dflt": dflt, "steps": steps, "channel": channel, "twin": twin}
+        if dflt_str is not None:
+            c["dflt_str"] = dflt_str
+        return c
+
+
+def group_steps(steps):
+    """argv items for a class group: dotted items only, no init_args level directly below the group"""
+    out = []
+    for st in steps:
+        if "nested" in st:
+            path = st["nested"][1:] if st["nested"][0] == "init_args" and len(st["nested"]) > 1 else st["nested"]
+            if path[0] not in ("init_args", "dict_kwargs"):
+                out.append({"nested": path, "raw": st["raw"]})
+        elif "d" in st["raw"]:
+            d = st["raw"]["d"]
+            if len(d) == 1 and d[0][0] == "init_args" and "d" in d[0][1]:
+                d = d[0][1]["d"]
+            out += [{"nested": [k], "raw": v} for k, v in d if k not in ("class_path", "init_args", "dict_kwargs")]
+    return out
 
 
 def _P(name, ty, d=None):
@@ -1200,6 +1281,53 @@ def fixed_cases():
         c["warm"] = {"fam": fm, "base": "Base", "steps": [],
                      "dflt": {"spec": {"cp": "jvfix11f%d.%s" % (n, wd[0]), "ia": [list(wd[1])], "dk": []}}}
         out.append(c)
+    # a second module defines a homonym of Sub (and of Leaf): the bare name is ambiguous below Base, not for the declared
+    # type Sub itself; the explicit path, Deep (below the homonym's original) and Oth are not affected
+    f12 = {"mod": "jvfix12", "funcs": [], "consts": ["K0"], "subs": [], "exports": [], "shadows": ["Leaf", "Sub"], "classes": [
+        _K("Base", [], [_P("a", ["int"], I(1))]),
+        _K("Sub", ["Base"], [_P("a", ["int"], I(2)), _P("b", ["int"], I(0))]),
+        _K("Deep", ["Sub"], [_P("a", ["int"], I(3))]), _K("Oth", ["Base"], [_P("c", ["int"], I(4))]),
+        _K("Item", [], [_P("n", ["int"], I(1))]), _K("Leaf", ["Item"], [_P("n", ["int"], I(2))]),
+        _K("Holder", [], [_P("h", ["cls", "Base"]), _P("o", ["opt", "Item"], N)])]}
+    for nm in ("Sub", "jvfix12.Sub", "Deep", "Oth"):
+        add(f12, "Base", [{"raw": S(nm)}])
+        add(f12, "Base", [{"raw": D(("class_path", S(nm)), ("init_args", D(("a", I(9)))))}])
+        add(f12, "Base", [{"raw": S("Oth")}, {"raw": S(nm)}])
+        add(f12, "Sub", [{"raw": S(nm)}])
+        add(f12, "Holder", [{"nested": ["h"], "raw": S(nm)}])
+        add(f12, "Base", [{"raw": S(nm)}], channel="sub")
+    add(f12, "Holder", [{"nested": ["h"], "raw": S("Deep")}, {"nested": ["o"], "raw": S("Leaf")}])
+    add(f12, "Holder", [{"nested": ["h"], "raw": S("Deep")}, {"nested": ["o"], "raw": S("jvfix12.Leaf")}, {"nested": ["o", "n"], "raw": I(5)}])
+    add(f12, "Base", [{"raw": S("Sub")}], channel="object")
+    out.append(cont_case(f12, "Base", "list", [{"list": [S("Deep"), S("Sub")], "via": "opt"}]))
+    # the option inside a sub-command; a class group instead of an option; a default given as a string
+    f3 = next(c_["fam"] for c_ in out if c_["fam"]["mod"] == "jvfix3")
+    for ch in ("sub", "group"):
+        add(f3, "Root", [{"nested": ["p"], "raw": S("Pair")}, {"nested": ["p", "l"], "raw": S("Leaf")},
+                                     {"nested": ["p", "r"], "raw": S("Leaf")}, {"nested": ["p", "r", "n"], "raw": I(3)}], channel=ch)
+        add(f3, "Root", [{"nested": ["p"], "raw": pair(1, 2)}, {"nested": ["q"], "raw": pair(3, 4)}], channel=ch)
+        add(f12, "Holder", [{"nested": ["h"], "raw": S("Deep")}, {"nested": ["h", "a"], "raw": I(7)}, {"nested": ["o"], "raw": S("jvfix12.Leaf")}], channel=ch)
+        add(f12, "Holder", [{"nested": ["o"], "raw": S("jvfix12.Leaf")}], channel=ch)       # required h missing
+    for ds in ("Sub", "jvfix11.Sub", "Plain"):
+        for steps in ([{"nested": ["b"], "raw": S("w")}], [{"nested": ["init_args", "a"], "raw": I(7)}], [],
+                      [{"raw": S("Plain")}, {"nested": ["a"], "raw": I(7)}]):
+            c = {"fam": f, "base": "Base", "dflt": {"spec": {"cp": ds, "ia": [], "dk": []}}, "steps": steps, "channel": "argv",
+                 "twin": None, "dflt_str": ds}
+            c["twin"] = _twin(c)
+            out.append(c)
+    # a diamond: D is reachable from Base through L and through R (it must be listed once), Deep below it
+    f13 = {"mod": "jvfix13", "funcs": [], "consts": ["K0"], "subs": [], "exports": [], "classes": [
+        _K("Base", [], [_P("a", ["int"], I(1))]), _K("L", ["Base"], [_P("a", ["int"], I(2))]),
+        _K("R", ["Base"], [_P("a", ["int"], I(3)), _P("r", ["int"], I(0))]),
+        _K("D", ["L", "R"], [_P("a", ["int"], I(4)), _P("d", ["int"], I(0))]), _K("Deep", ["D"], [_P("a", ["int"], I(5))]),
+        _K("Holder", [], [_P("h", ["cls", "Base"]), _P("o", ["opt", "L"], N)])]}
+    for nm in ("D", "Deep", "jvfix13.D"):
+        add(f13, "Base", [{"raw": S(nm)}])
+        add(f13, "Base", [{"raw": S(nm)}, {"nested": ["a"], "raw": I(9)}])
+        add(f13, "L", [{"raw": D(("class_path", S(nm)), ("init_args", D(("a", I(9)))))}])
+        add(f13, "Holder", [{"nested": ["h"], "raw": S(nm)}, {"nested": ["o"], "raw": S(nm)}])
+        add(f13, "Base", [{"raw": S("R")}, {"raw": S(nm)}], channel="sub")
+    out.append(cont_case(f13, "Base", "list", [{"list": [S("D"), S("Deep"), S("L")], "via": "opt"}]))
     fm = dict(f, mod="jvfix11f9")
     c = {"fam": fm, "base": "Holder", "dflt": None, "channel": "argv", "twin": None,
          "steps": [{"nested": ["h"], "raw": S("Sub")}, {"nested": ["h"], "raw": S("jvfix11f9.Base")}]}
@@ -1234,7 +1362,7 @@ def observe(cases):
         for gi, idxs in enumerate(mine):
             fam = dict(cases[idxs[0]]["fam"])
             fam["mod"] = "%s_%d_%d" % (cases[idxs[0]]["fam"]["mod"], w, gi) if False else fam["mod"]
-            batches.append({"fam": fam, "cases": [{k: cases[i].get(k) for k in ("base", "dflt", "steps", "channel", "twin", "warm", "multi", "cont")} for i in idxs]})
+            batches.append({"fam": fam, "cases": [{k: cases[i].get(k) for k in ("base", "dflt", "steps", "channel", "twin", "warm", "multi", "cont", "dflt_str")} for i in idxs]})
         payloads.append({"batches": batches})
         index.append(mine)
     res = run_impl_parallel("c14_classes.py", payloads, timeout=1500)
@@ -1373,10 +1501,12 @@ def g_family(fam):
         for k in fam["classes"]], "cls")
     fs = g_list(["{| f_name := %s; f_ret := %s; f_params := %s |}" % (
         g_str(f["name"]), g_str(f["ret"]), g_list([g_param(p) for p in f["params"]], "param")) for f in fam["funcs"]], "func")
-    return "{| fam_mod := %s; fam_classes := %s; fam_funcs := %s; fam_consts := %s; fam_subs := %s; fam_exports := %s |}" % (
+    return ("{| fam_mod := %s; fam_classes := %s; fam_funcs := %s; fam_consts := %s; fam_subs := %s; fam_exports := %s; "
+            "fam_shadows := %s |}") % (
         g_str(fam["mod"]), cl, fs, g_list([g_str(x) for x in fam["consts"]], "str"),
         g_list([g_pair(g_str(a), g_str(b)) for a, b in fam.get("subs") or []], "(str * str)"),
-        g_list([g_pair(g_str(a), g_str(b)) for a, b in fam.get("exports") or []], "(str * str)"))
+        g_list([g_pair(g_str(a), g_str(b)) for a, b in fam.get("exports") or []], "(str * str)"),
+        g_list([g_str(x) for x in fam.get("shadows") or []], "str"))
 
 
 def g_arg(a):
@@ -1436,7 +1566,7 @@ def term(case, obs):
         g_family(case["fam"]), g_str(case["base"]),
         g_opt(g_value(case["dflt"]) if case["dflt"] is not None else None),
         g_list([g_input(s) for s in case["steps"]], "input"), g_obs(None if case.get("cont") else obs["main"]), twin,
-        g_bool(case["channel"] in ("object", "multi", "cont")), g_list(sibs, "part"), cont)
+        g_bool(case["channel"] in ("object", "multi", "cont", "group")), g_list(sibs, "part"), cont)
 
 
 # ------------------------------------------------------------------------------------------------
@@ -1482,10 +1612,14 @@ def category(case, obs):
     if case.get("cont"):
         c = case["cont"]
         return "%s/%d sources/%s" % ("Dict[str,C]" if c["kind"] == "dict" else "List[C]", len(c["srcs"]), _kind(obs["main"]))
-    shape = "object" if case["channel"] == "object" else (
+    shape = "object" if case["channel"] == "object" else "class group" if case["channel"] == "group" else (
         "%d options/%d config sources" % (len(case["multi"]["opts"]), sum(1 for x in case["multi"]["argv"] if "cfg" in x))
     ) if case.get("multi") else ("grown family/" if case.get("warm") else "") + ("default+" if case["dflt"] else "") + (
         "1 step" if len(case["steps"]) == 1 else "%s steps" % ("2-3" if len(case["steps"]) <= 3 else ">=4"))
+    if case["channel"] == "sub":
+        shape = "sub-command/" + shape
+    if case.get("dflt_str") is not None:
+        shape = "string " + shape
     return "%s/%s%s" % (shape, _kind(obs["main"]), "/twin" if case.get("twin") is not None else "")
 
 
@@ -1522,7 +1656,13 @@ def describe(case, obs):
     elif case["channel"] == "object":
         d["parse_object"] = {"x": py_value(case["steps"][0]["raw"])}
     else:
-        d["argv"] = argv_of(case["steps"])
+        d["argv"] = (["fit"] if case["channel"] == "sub" else []) + argv_of(case["steps"])
+        if case["channel"] == "sub":
+            d["parser"] = "the option --x belongs to the parser of the sub-command `fit`"
+        if case["channel"] == "group":
+            d["parser"] = "parser.add_class_arguments(%s, 'x') instead of an option --x typed %s" % (case["base"], case["base"])
+        if case.get("dflt_str") is not None:
+            d["default"] = case["dflt_str"]
     if case.get("twin") is not None:
         d["explicit_twin_argv"] = argv_of(case["twin"])
         d["observed_twin"] = obs["twin"]
@@ -1602,7 +1742,7 @@ def _shrink_single(case):
 
 
 def _twin(c):
-    if c["channel"] != "argv":
+    if c["channel"] not in ("argv", "sub"):
         return None
     tw = expand_steps(c["fam"], c["base"], c["dflt"], c["steps"])
     return tw if tw != c["steps"] else None
